@@ -17,21 +17,26 @@ RULE = ("(1) long strings: strings written through _write_longstring in both esc
         "ent_serialise/ent_unserialise on random dictionaries and entity records (incl. flags, readonly, tagged resources, "
         "error cases). (4) lazy database: synthetic EngineDB objects with random block layouts, alias chains and cycles "
         "across blocks, and the block layout of the shipped database, queried in random / adversarial orders, state "
-        "(ent_map, unparsed) compared after EVERY get_ent; then get_fgd. Search = the property itself on the implementation: "
+        "(ent_map, unparsed) compared after EVERY get_ent; then get_fgd. (5) keyvalue / input / output lines: generated KVDef / IODef "
+        "records (every value type, choices / spawnflags blocks, tags, readonly/report, empty / long / nasty strings, both custom_syntax and "
+        "label_spawnflags settings): model text compared CHARACTER FOR CHARACTER with KVDef.export / IODef.export; entity bodies assembled from "
+        "implementation-written lines, and copies damaged by 1-2 random edits, parsed by the model (parseBody over the model tokenizer) and by the "
+        "implementation: same records or both reject. Search = the property itself on the implementation: "
         "generated FGDs (every value type, empty display name/default/description, 1-3k character strings, tagged "
         "duplicates, aliases, helpers, resources) and all shipped entities through export->parse->export (custom_syntax x "
         "label_spawnflags), serialise->unserialise, and engine_def-style single lookups on fresh databases vs the full load.")
 TRUSTED = ["models: lean/Srctools/Model/C16.lean (_fgd_escape, _write_longstring, _read_colon_list over Tok.run), "
-           "C16Bin.lean (BinStrDict, kv/io/resource/entity records as byte lists), C16Lazy.lean (EngineDB.get_ent/_parse_block/get_fgd); "
+           "C16KV.lean (KVDef.export/_parse, IODef.export/_parse, entity body loop, read_tags, _parse_colon_array; str.casefold/upper as "
+           "per-character tables, str.strip for ASCII blanks), C16Bin.lean (BinStrDict, kv/io/resource/entity records as byte lists), C16Lazy.lean (EngineDB.get_ent/_parse_block/get_fgd); "
            "shape constants regenerated from fgd.py/_engine_db.py/const.py by tools/gen_fgdw.py",
            "lzma, struct and utf-8 coding of the string tables are not modelled (the dictionary is a list of strings)",
            "the normal form after a text round trip (I/O type decay, boolean default, spawnflags display name, newline->space in "
            "choice/flag names, quote -> '' without custom syntax) is computed by harness/c16_fgd.py:norm_text"]
-NOT_MODELLED = ['EntityDef/KVDef/IODef export and parse beyond long strings and colon lists (helpers, resources, snippets, '
-                '@include, @AutoVisgroup): covered by the round-trip search only',
+NOT_MODELLED = ['entity header (helpers, base/aliasof, description), @resources, snippets, @include, @AutoVisgroup, @MaterialExclusion: '
+                'covered by the round-trip search only (keyvalue / input / output lines and the entity body ARE modelled: Model/C16KV.lean)',
                 'a base class name missing from the lazy database (KeyError inside _parse_block)',
-                'keyvalue defaults / choice values containing quote, backslash or newline (written unescaped); choice values that '
-                'look like "+1"; custom (unknown) value types; backslash or CR in text when custom_syntax=False',
+                'custom (unknown) value types; without custom syntax only the weaker law C16_longstring_plain is claimed (text is read back as the '
+                'tokenizer reads the unsplit _fgd_escape image; text ending in a dangling backslash is excluded); the keyvalue-line theorems are for custom_syntax=True',
                 'serialise(): block building heuristics (build_blocks); only its result is checked by round trip']
 ASSUMPTIONS = ['class names are unique within one database and every base named in the binary database exists (hypothesis WF of C16_lazy_*)',
                'serialise() asserts len(base_strings) == SHARED_STRINGS: the dictionary law is proved under exactly that hypothesis']
@@ -39,7 +44,9 @@ ASSUMPTIONS = ['class names are unique within one database and every base named 
 LEVEL_TEXT = ("Lean theorems over executable models: C16_longstring (for EVERY string: the text _write_longstring emits tokenizes, "
               "with plus_operator, to STRING/PLUS/NEWLINE tokens whose concatenation is the original string, every piece is at most "
               "LIMIT characters, and _read_colon_list reads it back as that one string; the negation is proved for the code before the "
-              "fix), C16_strdict / C16_kv / C16_ent (string-index and record round trips of the binary format), C16_lazy_* (for every "
+              "fix; C16_longstring_plain: the weaker law without custom syntax), C16_kvdef_roundtrip / C16_iodef_roundtrip / C16_entity_body_partial "
+              "(parseKV (tokens (exportKV k)) = ok (norm k) for keyvalue lines incl. tags, flags, colon list, choices / spawnflags blocks; I/O lines; "
+              "the entity body as a list of lines; the open spawnflags-default-desc class excluded with its negation witness), C16_strdict / C16_kv / C16_ent (string-index and record round trips of the binary format), C16_lazy_* (for every "
               "query list on a fresh database the queried entities equal those of the full load; idempotence; order independence). "
               "Model tied to the current source by the translator (shape of _write_longstring, tokenizer options, index tables) and by a "
               "differential run after every step; the complete export/parse/serialise code is exercised by a round-trip search over "
@@ -129,10 +136,28 @@ def _norm_read(m):
     return m
 
 
+def inside_pair(text):
+    """Does `text` end between a backslash and the character it escapes (model: C16.KV.insidePair)?"""
+    i = 0
+    while i < len(text):
+        if text[i] == '\\':
+            if i + 1 >= len(text):
+                return True
+            i += 2
+        else:
+            i += 1
+    return False
+
+
+def plain_ok(s):
+    """Domain of the weaker law without custom syntax (model: C16.KV.plainOK)."""
+    return not inside_pair(s.replace('\n', '\\n').replace('"', "''"))
+
+
 def plain_readback(s):
-    """What a reader gets for text written without custom syntax (documented: only \\n is escaped, a double quote
-    becomes two single quotes). Defined for text without backslash and CR."""
-    return s.replace('"', "''")
+    """What the tokenizer reads from the UNSPLIT "_fgd_escape(False, s)" (model: decodeUnits (plainEscape s));
+    for text without backslash / CR this is s with every double quote replaced by two single quotes."""
+    return G.plain_readback(s)
 
 
 class _Hang(Exception):
@@ -165,8 +190,8 @@ def check_long_property(ctx, s, ext, out, read):
         ctx.witness('longstring-hangs', f'_write_longstring(extended={ext}) does not terminate on a string of length {len(s)}', case)
         return
     want = s if ext else plain_readback(s)
-    if not ext and ('\\' in s or '\r' in s):
-        return
+    if not ext and not plain_ok(s):
+        return      # ends in a dangling backslash: excluded class of C16_longstring_plain
     if read.get('strings') != [codes(want)]:
         got = read if 'strings' not in read else [uncodes(x)[:40] + '…' for x in read['strings']]
         first = out.split('" +\n')[0]
